@@ -36,6 +36,33 @@ Theorem C01_malformed_admits_nothing :
   malformed_admits_nothing gha_matcher gha_facts.
 Proof. exact (conj npm_malformed_admits_nothing (conj crates_malformed_admits_nothing gha_malformed_admits_nothing)). Qed.
 
+(* pyproject.toml (PEP 440 through pep440_rs, any four functions): pypi.rs decides the empty specifier set before
+   anything is parsed, so the contract holds on the non-empty specs, and the table with it; the empty spec ("any
+   version") shows nothing as long as anything is cached for the package *)
+Definition C01_pypi_facts := pypi_facts.
+Theorem C01_table_pypi :
+  forall specs_ok ver_ok contains ver_le ign k d cur,
+  (forall r, resolved_spec k d cur = Some r -> nonempty r = true) ->
+  verdict_of cur (diagnostic (storer_of ign k d) (pypi_matcher specs_ok ver_ok contains ver_le) cur)
+             (table (facts_on ign k d _ nonempty (pypi_facts specs_ok ver_ok contains ver_le) cur) cur).
+Proof. intros. now apply diagnostic_is_table_on. Qed.
+Theorem C01_pypi_empty_spec :
+  forall specs_ok ver_ok contains ver_le ign k d l,
+  get_latest_version ign k d = Some l -> resolved_spec k d [] = Some [] ->
+  diagnostic (storer_of ign k d) (pypi_matcher specs_ok ver_ok contains ver_le) [] =
+    match get_versions k d with [] => Some (SevError, s_version_ ++ s_not_found) | _ => None end.
+Proof. intros specs_ok ver_ok contains ver_le ign k d l HL Hr. exact (pypi_empty_spec specs_ok ver_ok contains ver_le ign k d l HL Hr). Qed.
+
+(* open finding: the empty specifier set hides a malformed latest - the table of the property says Invalid whenever the
+   cached latest is not a version, pypi.rs answers "latest" before looking at it *)
+Lemma C01_pypi_empty_spec_refuted :
+  let k := ([112;121;112;105], [97]) in
+  let d := c_run 30000%Z [OStore k [[49;46;48]] 1%Z; OTags k [([108;97;116;101;115;116], [120])] 2%Z] in
+  let ver_ok := fun v => beq v [49;46;48] in
+  get_latest_version true k d = Some [120] /\ ver_ok [120] = false /\
+  diagnostic (storer_of true k d) (pypi_matcher (fun _ => true) ver_ok (fun _ _ => true) (fun _ _ => true)) [] = None.
+Proof. vm_compute. repeat split. Qed.
+
 (* Invalid beats NotFound *)
 Theorem C01_invalid_beats_not_found :
   forall ign k d m (F : matcher_facts m) cur l,
@@ -109,3 +136,5 @@ Print Assumptions C01_failed_read_silent.
 Print Assumptions C01_go_pseudo_version_order.
 Print Assumptions C01_malformed_admits_nothing.
 Print Assumptions C01_go_facts.
+Print Assumptions C01_table_pypi.
+Print Assumptions C01_pypi_empty_spec.
